@@ -26,7 +26,9 @@ def floors(tier):
 
 
 def cases(tier, seed):
-    for name in sorted(planaudit.targeted("/nonexistent-scratch-placeholder") if False else TARGET_NAMES):
+    for name in sorted(TARGET_NAMES):
+        yield {"targeted": name}
+    for name in planaudit.sk_names():
         yield {"targeted": name}
     profiles = ["structure", "default", "structure", "filter", "projection", "blockwise"]
     for i in range(CONFIG[tier]["programs"]):
